@@ -40,8 +40,14 @@ def sub(rel, pattern, repl, count=1, flags=re.S):
 OPS: List[dict] = []
 
 
-def op(name, props, rel, pattern, repl, **kw):
-    OPS.append(dict(name=name, props=props, apply=sub(rel, pattern, repl, **kw)))
+def op(name, props, rel, pattern, repl, also=(), **kw):
+    """`also`: further (file, pattern, replacement) edits of the same change (two cooperating edits); every one must apply"""
+    first = sub(rel, pattern, repl, **kw)
+    rest = [sub(r_, p_, x_) for r_, p_, x_ in also]
+
+    def apply(root):
+        return first(root) and all(f(root) for f in rest)
+    OPS.append(dict(name=name, props=props, apply=apply if rest else first))
 
 
 # ---------------------------------------------------------------- python.py layout / Jacobians (C01, C03, C04, C05, C13)
@@ -220,3 +226,18 @@ op("py-default-modules-late-binding", ["C01"], PY, r'DEFAULT_MODULES = \("scipy"
 op("cpp-control-covariance-one-triangle", ["C09"], CPP, r'                elif \(jKey, iKey\) in covariance:\n                    value = covariance\[\(jKey, iKey\)\]\n(.*?)                yield f"covariance\(\{i\}, \{j\}\)", value\n                if i != j:\n                    yield f"covariance\(\{j\}, \{i\}\)", value\n',
    r'\1                yield f"covariance({i}, {j})", value\n')
 op("val-handler-swallows-typeerror", ["C14"], COMMON, r"            except AttributeError:\n                continue", "            except (AttributeError, TypeError):\n                continue")
+# round 5
+op("cpp-includes-aliased-module-table", ["C15"], CPP, r'    includes = \[\n        "#include <Eigen/Dense>    // Matrix",\n        "#include <formak/innovation_filtering.h>",\n    \]\n    if generator.enable_EKF:\n        includes.append\("#include <any>"\)',
+   '    includes = _BASE_INCLUDES\n    if generator.enable_EKF:\n        includes.append("#include <any>")',
+   also=[(CPP, r"\ndef header_from_ast\(", '\n_BASE_INCLUDES = [\n    "#include <Eigen/Dense>    // Matrix",\n    "#include <formak/innovation_filtering.h>",\n]\n\n\ndef header_from_ast(')])
+op("cpp-process-noise-not-through-printer", ["C02"], CPP, r"        self\._control_covariance = BasicBlock\(\n            statements=self\._translate_control_covariance\(process_noise\),\n            indent=4,\n            config=config,\n        \)",
+   "        self._control_covariance = list(self._translate_control_covariance(process_noise))",
+   also=[(CPP, r"        yield from self\._control_covariance\.compile\(\)", '        for target, value in self._control_covariance:\n            yield MemberDeclaration("", target, value)')])
+op("py-model-init-simplifies-callers-model", ["C17"], PY, r"(        self\._impl = BasicBlock\(\n            arglist=self\.arglist,\n            statements=\[)symbolic_model\.state_model(\[a\] for a in self\.arglist_state\],)",
+   r"        state_model = symbolic_model.state_model\n        state_model.update({a: simplify(state_model[a]) for a in self.arglist_state})\n\1state_model\2")
+op("py-model-zero-dt-shortcut", ["C01", "C19"], PY, r"(            raise\n\n)(        next_state = self\.State\(\n)", r"\1        if dt == 0.0:\n            return self.State.from_data(state.data.copy())\n\n\2")
+op("sk-fit-solution-read-under-temporary-config", ["C17", "C18"], PY, r"        result = minimize\(minimize_this, x0, tol=1\.0e-1\)\n\n        if not result\.success:\n            raise MinimizationFailure\(result\)\n\n        soln_as_params = self\._inverse_flatten_scoring_params\(result\.x\)\n",
+   "        user_config = self.config\n        self.config = Config(**{**dataclasses.asdict(user_config), \"extra_validation\": False})\n        try:\n            result = minimize(minimize_this, x0, tol=1.0e-1)\n            if not result.success:\n                raise MinimizationFailure(result)\n            soln_as_params = self._inverse_flatten_scoring_params(result.x)\n        finally:\n            self.config = user_config\n")
+op("py-control-jacobian-column-major", ["C03", "C04"], PY, r"        symbolic_control_jacobian = \[\]\n        if self\.control_size > 0:\n            symbolic_control_jacobian = process_matrix\.jacobian\(self\.arglist_control\)\n",
+   "        symbolic_control_jacobian = [process_matrix.diff(control) for control in self.arglist_control]\n",
+   also=[(PY, r"            statements=\[expr for expr in symbolic_control_jacobian\],", "            statements=[expr for column in symbolic_control_jacobian for expr in column],")])
